@@ -1,5 +1,23 @@
 (* Client/Sound_Client.v — the client model's own outputs are accepted by the per-step checkers
-   of Checkers/ChkCl.v (C23 client side, C27, C17, C31 client side). *)
+   of Checkers/ChkCl.v (C23 client side, C27, C17, C31 client side).
+
+   Per step (s reachable from cl_init by well-formed events, os = snd (cl_step cfg s ev)):
+     chk_C27_sound     chk_C27 cfg s ev os = []                 (no hypothesis at all)
+     chk_C31c_sound    wf_cl_cfg cfg -> cl_reach cfg s -> chk_C31c cfg os = []
+     chk_C23c_sound    wf_cl_cfg cfg -> cl_reach cfg s -> wf_cl_event ev -> chk_C23c os = []
+                       (Register / Subscribe / Unsubscribe refuse an empty topic name, so every
+                        stored retry packet carries a non-empty one: cl_reach_st_named)
+     chk_C17_partial   ... -> calls_uniq s -> cl_fresh s ev = true -> chk_C17 cfg s ev os = []
+                       (chk_C17_sound is false: re-used call ids, see below; chk_C17_clauses12:
+                        without the extra hypotheses only clause 3 of the checker can fail)
+   Histories: chk_C27_history, chk_C31c_history, chk_C23c_history, chk_C17_history (cl_run_all).
+   The observations the checkers take are the model outputs themselves (list cl_out): ChkCl.v
+   projects them with c_sns / c_pkts / c_rets / c_cbs, so no conversion function is needed.
+
+   wf_cl_cfg restricts the configuration beyond "Go values": a non-empty client ID of at most
+   7168 bytes (an empty one is rejected by the decoder: chk_C23c = [1] for CONNECT), a will topic
+   of at most 7168 bytes, and len user + len pass <= 7000 (with a longer one AUTH exceeds the
+   maximal packet length and is not written after CONNECT: chk_C31c = [2]). *)
 From stdpp Require Import base option list numbers fin_maps nmap.
 From Coq Require Import Lia ZArith ZifyN ZifyNat ZifyBool.
 From RecordUpdate Require Import RecordSet.
@@ -79,7 +97,14 @@ Lemma Outs_app cfg Q a b : Outs cfg Q a -> Outs cfg Q b -> Outs cfg Q (a ++ b).
 Proof. intros Ha Hb. induction Ha; cbn [app]; try (constructor; assumption). exact Hb. Qed.
 
 Lemma Outs_mono cfg (Q Q' : packet -> Prop) os : (forall p, Q p -> Q' p) -> Outs cfg Q os -> Outs cfg Q' os.
-Proof. intros HQ H. induction H; constructor; auto. Qed.
+Proof.
+  intros HQ H. induction H as [|t p os Hc Hq Hsz _ IH|t os Hu _ IH|t t' os Hu _ IH|o os Ho _ IH].
+  - apply Outs_nil.
+  - apply Outs_sn; auto.
+  - apply Outs_conn; assumption.
+  - apply Outs_conn_auth; assumption.
+  - apply Outs_other; assumption.
+Qed.
 
 Lemma Outs_nosn cfg Q os : forallb (fun o => negb (is_sn o)) os = true -> Outs cfg Q os.
 Proof.
@@ -104,7 +129,10 @@ Proof.
   assert (Hw : wf_bytesb ([0] ++ k_user cfg ++ [0] ++ k_pass cfg) = true).
   { apply wf_bytesb_spec. apply wf_bytes_cons; [lia|]. apply wf_bytes_app; [exact Hu|].
     apply wf_bytes_cons; [lia|exact Hp]. }
-  rewrite Hw. cbn [app] in *. rewrite len_cons, len_app, len_cons.
+  rewrite Hw.
+  assert (Hlen : len ([0] ++ k_user cfg ++ [0] ++ k_pass cfg) = 2 + len (k_user cfg) + len (k_pass cfg)).
+  { cbn [app]. rewrite len_cons, len_app, len_cons. lia. }
+  rewrite Hlen.
   repeat (apply andb_true_iff; split); try reflexivity. lia.
 Qed.
 
@@ -226,3 +254,877 @@ Proof.
     reflexivity.
   - rewrite c_pkts_other by exact Ho. exact IH.
 Qed.
+
+(* ------------------------------------------------------------------ outputs of the step functions *)
+
+Definition is_cb (o : cl_out) : bool := match o with CoCb _ _ _ _ _ _ _ _ => true | _ => false end.
+
+(* datagrams of the shape above and no callbacks *)
+Definition OutsN (cfg : cl_cfg) (Q : packet -> Prop) (os : list cl_out) : Prop := Outs cfg Q os /\ c_cbs os = [].
+
+Lemma OutsN_nil cfg Q : OutsN cfg Q [].
+Proof. split; [apply Outs_nil|reflexivity]. Qed.
+Lemma OutsN_app cfg Q a b : OutsN cfg Q a -> OutsN cfg Q b -> OutsN cfg Q (a ++ b).
+Proof. intros [Ha Ha'] [Hb Hb']. split; [apply Outs_app; assumption|rewrite c_cbs_app, Ha', Hb'; reflexivity]. Qed.
+Lemma OutsN_ret cfg Q s call r : OutsN cfg Q (ret s call r).
+Proof. split; [apply Outs_other; [reflexivity|apply Outs_nil]|reflexivity]. Qed.
+Lemma OutsN_mono cfg (Q Q' : packet -> Prop) os : (forall p, Q p -> Q' p) -> OutsN cfg Q os -> OutsN cfg Q' os.
+Proof. intros HQ [H1 H2]. split; [eapply Outs_mono; eassumption|exact H2]. Qed.
+
+Lemma c_send_spec s p :
+  c_send s p = ([], false) \/
+  (c_send s p = ([CoSn (cl_now s) (pack p)], true) /\ len (pack p) <= MaxPacketLen /\ cl_conn_closed s = false).
+Proof.
+  unfold c_send. destruct (cl_conn_closed s); [left; reflexivity|].
+  destruct (len (pack p) <=? MaxPacketLen) eqn:E; [right|left; reflexivity].
+  apply N.leb_le in E. auto.
+Qed.
+
+Lemma c_send_ok s p : cl_conn_closed s = false -> len (pack p) <= MaxPacketLen ->
+  c_send s p = ([CoSn (cl_now s) (pack p)], true).
+Proof. intros Hc Hl. unfold c_send. rewrite Hc. apply N.leb_le in Hl. rewrite Hl. reflexivity. Qed.
+
+Lemma c_send_outs cfg (Q : packet -> Prop) s p : csend p -> Q p -> OutsN cfg Q (fst (c_send s p)).
+Proof.
+  intros Hc Hq. destruct (c_send_spec s p) as [E|(E & Hsz & _)]; rewrite E; cbn [fst]; [apply OutsN_nil|].
+  split; [apply Outs_sn; [exact Hc|exact Hq|exact Hsz|apply Outs_nil]|reflexivity].
+Qed.
+
+Lemma connect_attempt_outs cfg Q s call n : wf_cl_cfg cfg -> OutsN cfg Q (snd (connect_attempt cfg s call n)).
+Proof.
+  intros Hcfg. unfold connect_attempt, c_new_obj.
+  match goal with |- context [c_send ?s1 (connect_pkt cfg)] => set (s' := s1) end.
+  destruct (c_send_spec s' (connect_pkt cfg)) as [E|(E & Hsz & Hcc)]; rewrite E; cbn [snd].
+  - apply OutsN_app; [apply OutsN_nil|apply OutsN_ret].
+  - destruct (len (k_user cfg) =? 0) eqn:Eu; cbn [snd].
+    + apply N.eqb_eq in Eu. split; [apply Outs_conn; [exact Eu|apply Outs_nil]|reflexivity].
+    + apply N.eqb_neq in Eu.
+      rewrite (c_send_ok s' (auth_pkt cfg) Hcc (pack_size _ (wf_auth_pkt cfg Hcfg))). cbn [snd app].
+      split; [apply Outs_conn_auth; [exact Eu|apply Outs_nil]|reflexivity].
+Qed.
+
+Lemma start_retry_outs cfg (Q : packet -> Prop) s call kind key st p bt s' g o ok :
+  start_retry cfg s call kind key st p bt = (s', g, o, ok) -> csend p -> Q p -> OutsN cfg Q o.
+Proof.
+  unfold start_retry, c_new_obj. intros H Hc Hq.
+  match type of H with context [c_send ?s1 p] => pose proof (c_send_outs cfg Q s1 p Hc Hq) as Ho; destruct (c_send s1 p) as [o1 ok1] end.
+  injection H as _ _ <- _. exact Ho.
+Qed.
+
+Lemma call_simple_outs cfg (Q : packet -> Prop) s call kind st mk :
+  (forall mid, csend (mk mid) /\ Q (mk mid)) -> OutsN cfg Q (snd (call_simple cfg s call kind st mk)).
+Proof.
+  intros Hmk. unfold call_simple, c_next_mid.
+  match goal with |- context [start_retry ?a ?b ?c ?d ?e ?f ?g ?h] => destruct (start_retry a b c d e f g h) as [[[s' g'] o] ok] eqn:E end.
+  destruct (Hmk (cl_next_mid s)) as [Hc Hq].
+  pose proof (start_retry_outs _ Q _ _ _ _ _ _ _ _ _ _ _ E Hc Hq) as Ho.
+  destruct ok; cbn [snd]; [exact Ho|apply OutsN_app; [exact Ho|apply OutsN_ret]].
+Qed.
+
+Lemma do_publish_outs cfg (Q : packet -> Prop) s call tit tid qos retain payload :
+  (forall p, namedb p = true -> Q p) ->
+  OutsN cfg Q (snd (do_publish cfg s call tit tid qos retain payload)).
+Proof.
+  intros HQ. unfold do_publish, c_next_mid.
+  match goal with |- context [Publish false qos retain tit tid ?m payload] => set (p := Publish false qos retain tit tid m payload) end.
+  assert (Hq : Q p) by (apply HQ; reflexivity). assert (Hc : csend p) by exact I.
+  cbv zeta.
+  destruct ((qos =? 0) || (qos =? 3)).
+  { match goal with |- context [c_send ?s1 p] => pose proof (c_send_outs cfg Q s1 p Hc Hq) as Ho; destruct (c_send s1 p) as [o [|]] end;
+      cbn [snd fst] in *; (apply OutsN_app; [exact Ho|apply OutsN_ret]). }
+  destruct (qos =? 1).
+  { match goal with |- context [start_retry ?a ?b ?c ?d ?e ?f ?g ?h] => destruct (start_retry a b c d e f g h) as [[[s' g'] o] ok] eqn:E end.
+    pose proof (start_retry_outs _ Q _ _ _ _ _ _ _ _ _ _ _ E Hc Hq) as Ho.
+    destruct ok; cbn [snd]; [exact Ho|apply OutsN_app; [exact Ho|apply OutsN_ret]]. }
+  destruct (qos =? 2).
+  { match goal with |- context [start_retry ?a ?b ?c ?d ?e ?f ?g ?h] => destruct (start_retry a b c d e f g h) as [[[s' g'] o] ok] eqn:E end.
+    pose proof (start_retry_outs _ Q _ _ _ _ _ _ _ _ _ _ _ E Hc Hq) as Ho.
+    destruct ok; cbn [snd]; [exact Ho|apply OutsN_app; [exact Ho|apply OutsN_ret]]. }
+  cbn [snd]. apply OutsN_ret.
+Qed.
+
+Ltac outsN := repeat first [apply OutsN_nil | apply OutsN_ret | assumption | apply OutsN_app].
+
+Ltac sr_outs Q :=
+  match goal with |- context [start_retry ?a ?b ?c ?d ?e ?f ?g ?h] =>
+    let E := fresh "E" in
+    destruct (start_retry a b c d e f g h) as [[[? ?] ?] ok] eqn:E;
+    pose proof (start_retry_outs _ Q _ _ _ _ _ _ _ _ _ _ _ E I eq_refl)
+  end.
+
+Definition namedp (p : packet) : Prop := namedb p = true.
+
+(* every packet an API call writes carries a non-empty topic name: Register / Subscribe /
+   Unsubscribe refuse the empty one *)
+Lemma do_call_outs cfg s call a : wf_cl_cfg cfg -> OutsN cfg namedp (snd (do_call cfg s call a)).
+Proof.
+  intros Hcfg. unfold do_call.
+  destruct a as [|topic|topic qos|tid qos|topic qos retain payload|tid qos retain payload|topic|tid| |ms| |].
+  - apply connect_attempt_outs, Hcfg.
+  - destruct (len topic =? 0) eqn:Hn; [cbn [snd]; outsN|].
+    apply call_simple_outs. intros mid. split; [exact I|]. unfold namedp. cbn [namedb]. rewrite Hn. reflexivity.
+  - destruct (len topic =? 0) eqn:Hn; [cbn [snd]; outsN|].
+    destruct (is_short_topic topic); apply call_simple_outs; intros mid; (split; [cbn [csend]; unfold TIT_SHORT, TIT_STRING; lia|]).
+    + reflexivity.
+    + unfold namedp. cbn [namedb]. rewrite Hn. unfold TIT_STRING. reflexivity.
+  - apply call_simple_outs. intros mid. split; [cbn [csend]; unfold TIT_PREDEFINED; lia|]. reflexivity.
+  - destruct (is_short_topic topic); [apply do_publish_outs; auto|].
+    destruct (reg_lookup (cl_registered s) topic); [apply do_publish_outs; auto|]. cbn [snd]. outsN.
+  - apply do_publish_outs; auto.
+  - destruct (len topic =? 0) eqn:Hn; [cbn [snd]; outsN|].
+    destruct (is_short_topic topic); apply call_simple_outs; intros mid; (split; [cbn [csend]; unfold TIT_SHORT, TIT_STRING; lia|]).
+    + reflexivity.
+    + unfold namedp. cbn [namedb]. rewrite Hn. unfold TIT_STRING. reflexivity.
+  - apply call_simple_outs. intros mid. split; [cbn [csend]; unfold TIT_PREDEFINED; lia|]. reflexivity.
+  - sr_outs namedp. destruct ok; cbn [snd]; outsN.
+  - destruct (negb _); [cbn [snd]; outsN|]. unfold c_new_obj. cbv zeta. cbn [cl_st set].
+    destruct (cl_st s); cbn [snd]; outsN.
+    match goal with |- context [c_send ?s1 ?p] =>
+      pose proof (c_send_outs cfg namedp s1 p I eq_refl) as Ho;
+      destruct (c_send s1 p) as [o [|]] end; cbn [snd fst] in *; outsN.
+  - destruct (cl_st s); cbn [snd]; outsN; sr_outs namedp; destruct ok; cbn [snd]; outsN.
+  - destruct (cl_st s); cbn [snd]; outsN; sr_outs namedp; destruct ok; cbn [snd]; outsN.
+Qed.
+
+Lemma complete_outs cfg Q s g t r ic : wf_cl_cfg cfg -> OutsN cfg Q (snd (complete cfg s g t r ic)).
+Proof.
+  intros Hcfg. unfold complete. cbv zeta.
+  destruct (cl_cancelled (c_finish_obj s g)); [cbn [snd]; outsN|].
+  destruct t as [call att|call kind key st data n sub|call st n ms|mid pub]; cbn [snd]; outsN.
+  - destruct r; cbn [snd]; outsN.
+    destruct (att + 1 <=? k_rcount cfg); [apply connect_attempt_outs, Hcfg|cbn [snd]; outsN].
+  - destruct (kind =? 6); [destruct r; cbn [snd]; outsN|].
+    destruct (kind =? 7); [destruct r; cbn [snd]; outsN|]. cbn [snd]. outsN.
+Qed.
+
+Lemma c_exit_outs cfg Q s t : OutsN cfg Q (snd (c_exit s t)).
+Proof.
+  unfold c_exit. cbv zeta. cbn [snd].
+  match goal with |- OutsN _ _ (_ :: ?l0 ≫= ?f) => generalize l0 end. intros l.
+  assert (H : forall os, forallb (fun o => negb (is_sn o) && negb (is_cb o)) os = true -> OutsN cfg Q os).
+  { induction os as [|o os IH]; cbn [forallb]; intros H; [apply OutsN_nil|].
+    apply andb_true_iff in H. destruct H as [H1 H2]. apply andb_true_iff in H1. destruct H1 as [H1 H3].
+    apply negb_true_iff in H1. apply negb_true_iff in H3. destruct (IH H2) as [IH1 IH2].
+    split; [apply Outs_other; assumption|]. destruct o; try discriminate; exact IH2. }
+  apply H. cbn [forallb is_sn is_cb negb andb].
+  induction l as [|c l IH]; [reflexivity|]. cbn [mbind list_bind]. rewrite forallb_app, IH.
+  destruct (c mod 2 =? 0); reflexivity.
+Qed.
+
+Lemma dispatch_Outs cfg Q s topic p : Outs cfg Q (dispatch s topic p).
+Proof.
+  unfold dispatch. destruct p; try apply Outs_nil.
+  destruct (handle_set _ _); [apply Outs_nil|apply Outs_other; [reflexivity|apply Outs_nil]].
+Qed.
+
+Lemma complete_Outs cfg Q s g t r ic : wf_cl_cfg cfg -> Outs cfg Q (snd (complete cfg s g t r ic)).
+Proof. intros H. apply complete_outs, H. Qed.
+
+Lemma csend_willtopic cfg : wf_cl_cfg cfg -> csend (WillTopic (k_wqos cfg) (k_wretain cfg) (k_will cfg)).
+Proof. intros H. cbn [csend]. apply H. Qed.
+
+Ltac hp_send cfg Q Hcfg HQ :=
+  match goal with
+  | |- context [c_send ?s1 ?p] =>
+    let Ho := fresh "Ho" in
+    assert (Ho : OutsN cfg Q (fst (c_send s1 p)))
+      by (apply c_send_outs; [first [exact I|apply csend_willtopic, Hcfg]|apply HQ; reflexivity]);
+    destruct Ho as [Ho _]; destruct (c_send s1 p) as [? [|]]; cbn [fst] in Ho
+  end.
+
+Ltac hp_walk cfg Q Hcfg HQ :=
+  repeat first
+    [ progress cbn [snd fst loop_err]
+    | apply Outs_nil
+    | assumption
+    | apply (complete_Outs cfg Q); exact Hcfg
+    | apply dispatch_Outs
+    | apply Outs_app
+    | hp_send cfg Q Hcfg HQ
+    | match goal with |- Outs _ _ (snd (match ?x with _ => _ end)) => destruct x eqn:? end
+    | match goal with |- Outs _ _ (snd (if ?x then _ else _)) => destruct x eqn:? end
+    | match goal with |- Outs _ _ (snd (let (_, _) := ?x in _)) => destruct x eqn:? end ].
+
+Lemma handle_packet_outs cfg (Q : packet -> Prop) s p : wf_cl_cfg cfg -> (forall q, namedb q = true -> Q q) ->
+  Outs cfg Q (snd (handle_packet cfg s p)).
+Proof.
+  intros Hcfg HQ. unfold handle_packet, loop_err, c_new_obj. destruct p; hp_walk cfg Q Hcfg HQ.
+Qed.
+
+(* ---- timers *)
+Definition simplep (p : packet) : Prop := match p with Disconnect _ | Pingreq _ => True | _ => False end.
+
+Section TimerOuts.
+  Variables (cfg : cl_cfg) (Q : packet -> Prop) (b : bool).
+  Hypothesis Hcfg : wf_cl_cfg cfg.
+  Hypothesis HQ : forall p, simplep p -> Q p.
+  Hypothesis HR : forall call kind key st data n sub,
+    obj_ok b (CxRetry call kind key st data n sub) -> Q (retry_data kind data).
+
+  Ltac t_send :=
+    match goal with
+    | |- context [c_send ?s1 ?p] =>
+      let Ho := fresh "Ho" in
+      assert (Ho : OutsN cfg Q (fst (c_send s1 p))) by (apply c_send_outs; [exact I|apply HQ; exact I]);
+      destruct (c_send s1 p) as [? [|]]; cbn [fst] in Ho
+    end.
+  Ltac t_walk :=
+    repeat first
+      [ progress cbn [snd fst]
+      | apply OutsN_nil | assumption
+      | apply (complete_outs cfg Q); exact Hcfg
+      | t_send
+      | match goal with |- OutsN _ _ (snd (match ?x with _ => _ end)) => destruct x eqn:? end
+      | match goal with |- OutsN _ _ (snd (if ?x then _ else _)) => destruct x eqn:? end ].
+
+  Lemma c_fire_outs s k : InvA b s -> OutsN cfg Q (snd (c_fire cfg s k)).
+  Proof.
+    intros Hi. unfold c_fire. destruct k as [g|g|g|g|g]; cbv zeta.
+    - t_walk.
+    - destruct (cl_objs s !! g) as [[call att|call kind key st data n sub|call st n ms|mid pub]|] eqn:Hg; cbn [snd]; try apply OutsN_nil.
+      destruct (k_rcount cfg <? n + 1); [apply complete_outs, Hcfg|].
+      fold (retry_data kind data).
+      pose proof (ia_obj b s Hi g _ Hg) as Hok.
+      pose proof (obj_ok_retry b call kind key st data n sub st n Hok) as Hok'. destruct Hok' as (Hc & _ & _).
+      match goal with
+      | |- context [c_send ?s1 ?p] =>
+        assert (Ho : OutsN cfg Q (fst (c_send s1 p))) by (apply c_send_outs; [exact Hc|eapply HR, Hok]);
+        destruct (c_send s1 p) as [? [|]]; cbn [fst] in Ho
+      end; t_walk.
+    - t_walk.
+    - t_walk.
+    - t_walk.
+  Qed.
+
+  Lemma c_run_timers_outs t fuel : forall s, InvA b s -> OutsN cfg Q (snd (c_run_timers fuel cfg s t)).
+  Proof.
+    induction fuel as [|fuel IH]; intros s Hi; cbn [c_run_timers]; [apply OutsN_nil|]. cbv zeta.
+    destruct (c_min_timer (cl_timers s)) as [tm|].
+    - match goal with |- context [if ?c then _ else _] => destruct c end.
+      + match goal with |- context [c_fire cfg ?X ?k] =>
+          assert (Hi0 : InvA b X) by (repeat invA_raw; exact Hi);
+          pose proof (c_fire_invA b cfg X k Hi0) as Hi1; pose proof (c_fire_outs X k Hi0) as Ho1;
+          destruct (c_fire cfg X k) as [s1 o1] end.
+        cbn [fst snd] in Hi1, Ho1. specialize (IH s1 Hi1). destruct (c_run_timers fuel cfg s1 t) as [s2 o2].
+        cbn [snd] in *. apply OutsN_app; assumption.
+      + destruct (if cl_exited s then None else cl_cancelled s) as [te|]; [|apply OutsN_nil].
+        destruct (te <=? t); [|apply OutsN_nil].
+        pose proof (c_exit_invA b s te Hi) as Hi1. pose proof (c_exit_outs cfg Q s te) as Ho1.
+        destruct (c_exit s te) as [s1 o1]. cbn [fst snd] in Hi1, Ho1.
+        specialize (IH s1 Hi1). destruct (c_run_timers fuel cfg s1 t) as [s2 o2]. cbn [snd] in *. apply OutsN_app; assumption.
+    - destruct (if cl_exited s then None else cl_cancelled s) as [te|]; [|apply OutsN_nil].
+      destruct (te <=? t); [apply c_exit_outs|apply OutsN_nil].
+  Qed.
+End TimerOuts.
+
+(* ---- the whole step *)
+Lemma simplep_named p : simplep p -> namedb p = true.
+Proof. destruct p; cbn [simplep]; intros H; try contradiction; reflexivity. Qed.
+
+Lemma cl_step_outs cfg (Q : packet -> Prop) b s ev : wf_cl_cfg cfg -> InvA b s ->
+  match ev with
+  | CAdv _ => forall p, simplep p -> Q p
+  | _ => forall p, namedb p = true -> Q p
+  end ->
+  (forall call kind key st data n sub, obj_ok b (CxRetry call kind key st data n sub) -> Q (retry_data kind data)) ->
+  Outs cfg Q (snd (cl_step cfg s ev)) /\ match ev with CGw _ => True | _ => c_cbs (snd (cl_step cfg s ev)) = [] end.
+Proof.
+  intros Hcfg Hi HQ HR. unfold cl_step. destruct ev as [id a|dg|d].
+  - cut (OutsN cfg Q (snd (if cl_exited s then (s, [])
+           else match cl_cancelled s with
+                | Some _ => (s, [])
+                | None => let (s', o) := do_call cfg s id a in
+                          match cl_cancelled s' with
+                          | Some te => if te <=? cl_now s' then let (s'', o') := c_exit s' te in (s'', o ++ o') else (s', o)
+                          | None => (s', o)
+                          end
+                end))); [intros H; exact H|].
+    destruct (cl_exited s); [apply OutsN_nil|]. destruct (cl_cancelled s); [apply OutsN_nil|].
+    pose proof (do_call_outs cfg s id a Hcfg) as Ho. apply (OutsN_mono _ _ Q) in Ho; [|intros p Hp; apply HQ, Hp].
+    destruct (do_call cfg s id a) as [s1 o1]. cbn [snd] in Ho.
+    destruct (cl_cancelled s1) as [te|]; [|exact Ho]. destruct (te <=? cl_now s1); [|exact Ho].
+    pose proof (c_exit_outs cfg Q s1 te) as Ho2. destruct (c_exit s1 te) as [s2 o2]. cbn [snd] in *. apply OutsN_app; assumption.
+  - split; [|exact I].
+    destruct (cl_exited s); [apply Outs_nil|]. destruct (cl_cancelled s); [apply Outs_nil|]. cbv zeta.
+    destruct (read_dgram dg) as [p|e|ps].
+    + pose proof (handle_packet_outs cfg Q (s <| cl_last_read := cl_now s |>) p Hcfg) as Ho.
+      specialize (Ho HQ).
+      destruct (handle_packet cfg (s <| cl_last_read := cl_now s |>) p) as [s1 o1]. cbn [snd] in Ho.
+      destruct (cl_cancelled s1) as [te|]; [|exact Ho]. destruct (te <=? cl_now s1); [|exact Ho].
+      pose proof (c_exit_outs cfg Q s1 te) as [Ho2 _]. destruct (c_exit s1 te) as [s2 o2]. cbn [snd] in *. apply Outs_app; assumption.
+    + match goal with |- context [c_exit ?X ?t] => pose proof (c_exit_outs cfg Q X t) as [Ho2 _]; destruct (c_exit X t) as [s2 o2] end. exact Ho2.
+    + match goal with |- context [c_exit ?X ?t] => pose proof (c_exit_outs cfg Q X t) as [Ho2 _]; destruct (c_exit X t) as [s2 o2] end. exact Ho2.
+  - pose proof (c_run_timers_outs cfg Q b Hcfg HQ HR (cl_now s + d) (c_advance_fuel cfg s d) s Hi) as Ho.
+    destruct (c_run_timers (c_advance_fuel cfg s d) cfg s (cl_now s + d)) as [s1 o1]. exact Ho.
+Qed.
+
+(* ------------------------------------------------------------------ reachable states *)
+
+Lemma cl_reach_invA b cfg s : cl_reach cfg s -> InvA b s.
+Proof.
+  induction 1 as [|s ev _ IH Hev]; [apply invA_init|]. apply cl_step_invA, IH.
+Qed.
+
+(* every stored packet that a retry re-sends carries a non-empty topic name *)
+Definition obj_named (t : ctxn) : bool := match t with CxRetry _ _ _ _ d _ _ => namedb d | _ => true end.
+Definition st_named (s : cl_state) : bool := forallb (fun gt => obj_named (snd gt)) (map_to_list (cl_objs s)).
+
+Lemma st_named_spec s : st_named s = true <-> forall g t, cl_objs s !! g = Some t -> obj_named t = true.
+Proof.
+  unfold st_named. rewrite forallb_forall. split.
+  - intros H g t Hg. apply (H (g, t)). apply elem_of_list_In, elem_of_map_to_list, Hg.
+  - intros H [g t] Hin. apply elem_of_list_In, elem_of_map_to_list in Hin. cbn [snd]. eapply H, Hin.
+Qed.
+
+Lemma invA_named s : InvA true s <-> InvA false s /\ st_named s = true.
+Proof.
+  rewrite st_named_spec. split.
+  - intros [H1 H2 H3]. split; [split; [|exact H2|exact H3]|].
+    + intros g t Hg. specialize (H1 g t Hg). destruct t; cbn [obj_ok] in *; try exact I.
+      destruct H1 as (Ha & Hb & _). split; [exact Ha|split; [exact Hb|discriminate]].
+    + intros g t Hg. specialize (H1 g t Hg). destruct t; cbn [obj_ok obj_named] in *; try reflexivity. apply H1. reflexivity.
+  - intros [[H1 H2 H3] Hn]. split; [|exact H2|exact H3].
+    intros g t Hg. specialize (H1 g t Hg). specialize (Hn g t Hg). destruct t; cbn [obj_ok obj_named] in *; try exact I.
+    destruct H1 as (Ha & Hb & _). auto.
+Qed.
+
+Lemma st_named_init : st_named cl_init = true.
+Proof. reflexivity. Qed.
+
+(* Register / Subscribe / Unsubscribe refuse an empty topic name, so st_named holds of every
+   reachable state *)
+Lemma cl_reach_st_named cfg s : cl_reach cfg s -> st_named s = true.
+Proof. intros Hr. apply (invA_named s), (cl_reach_invA true cfg s Hr). Qed.
+
+(* ------------------------------------------------------------------ C23 (client side) *)
+
+(* (the hypothesis wf_cl_event ev is not used) *)
+Theorem chk_C23c_sound cfg s ev : wf_cl_cfg cfg -> cl_reach cfg s -> wf_cl_event ev ->
+  chk_C23c (snd (cl_step cfg s ev)) = [].
+Proof.
+  intros Hcfg Hr _. apply (Outs_C23c cfg _ Hcfg).
+  apply (cl_step_outs cfg (fun p => namedb p = true) true s ev Hcfg).
+  - apply cl_reach_invA with cfg, Hr.
+  - destruct ev; [auto|auto|apply simplep_named].
+  - intros call kind key st data n sub (_ & _ & H). unfold retry_data.
+    destruct ((kind =? 1) || (kind =? 3) || (kind =? 4)); [rewrite namedb_set_dup|]; apply H; reflexivity.
+Qed.
+
+(* ------------------------------------------------------------------ C31 (client side) *)
+Theorem chk_C31c_sound cfg s ev : wf_cl_cfg cfg -> cl_reach cfg s -> chk_C31c cfg (snd (cl_step cfg s ev)) = [].
+Proof.
+  intros Hcfg Hr. apply (Outs_C31c cfg (fun _ => True) _ Hcfg).
+  apply (cl_step_outs cfg (fun _ => True) false s ev Hcfg); [apply cl_reach_invA with cfg, Hr| |auto].
+  destruct ev; auto.
+Qed.
+
+(* ------------------------------------------------------------------ C27 *)
+
+Definition nocb (os : list cl_out) : Prop := c_cbs os = [].
+Lemma nocb_nil : nocb []. Proof. reflexivity. Qed.
+Lemma nocb_app a b : nocb a -> nocb b -> nocb (a ++ b).
+Proof. unfold nocb. intros Ha Hb. rewrite c_cbs_app, Ha, Hb. reflexivity. Qed.
+Lemma nocb_ret s call r : nocb (ret s call r). Proof. reflexivity. Qed.
+Lemma nocb_send s p : nocb (fst (c_send s p)).
+Proof. destruct (c_send_spec s p) as [E|(E & _)]; rewrite E; reflexivity. Qed.
+Lemma nocb_connect_attempt cfg s call n : nocb (snd (connect_attempt cfg s call n)).
+Proof.
+  unfold connect_attempt, c_new_obj. cbv zeta.
+  repeat match goal with
+         | |- context [c_send ?X ?p] => let H := fresh "H" in pose proof (nocb_send X p) as H; destruct (c_send X p) as [? [|]]; cbn [fst] in H
+         end; try destruct (len (k_user cfg) =? 0); cbn [snd]; repeat first [assumption|apply nocb_ret|apply nocb_app].
+Qed.
+Lemma nocb_complete cfg s g t r ic : nocb (snd (complete cfg s g t r ic)).
+Proof.
+  unfold complete. cbv zeta. destruct (cl_cancelled (c_finish_obj s g)); [reflexivity|].
+  destruct t as [call att|call kind key st data n sub|call st n ms|mid pub]; cbn [snd]; try reflexivity.
+  - destruct r; try reflexivity. destruct (att + 1 <=? k_rcount cfg); [apply nocb_connect_attempt|reflexivity].
+  - destruct (kind =? 6); [destruct r; reflexivity|]. destruct (kind =? 7); [destruct r; reflexivity|]. reflexivity.
+Qed.
+Lemma nocb_exit s t : nocb (snd (c_exit s t)).
+Proof. apply (c_exit_outs (Build_cl_cfg [] [] [] 0 0 0 0 false [] [] 0 false []) (fun _ => True) s t). Qed.
+
+Definition deliv (s : cl_state) (p : packet) : option (N * N) :=
+  match p with
+  | Publish _ q _ tit tid _ _ => if (q =? 0) || (q =? 1) then Some (tit, tid) else None
+  | Pubrel mid =>
+    match c_get_id s mid with
+    | Some (_, CxBrokerPub2 _ (Publish _ _ _ tit tid _ _)) => Some (tit, tid)
+    | _ => None
+    end
+  | _ => None
+  end.
+
+Definition c27 (cfg : cl_cfg) (s : cl_state) (d : option (N * N)) (os : list cl_out) : list N :=
+  match c_cbs os with
+  | [] => []
+  | [(sub, topic)] =>
+    match d with
+    | Some (tit, tid) =>
+      (match topic_for_publish cfg s tit tid with
+       | Some t => if beq t topic then [] else [2]
+       | None => [2]
+       end) ++
+      (if existsb (fun kh => (snd (snd kh) =? sub) && match_route (fst (snd kh)) (split topic)) (cl_handlers s)
+       then [] else [1])
+    | None => [3]
+    end
+  | _ => [4]
+  end.
+
+Lemma c27_nocb cfg s d os : nocb os -> c27 cfg s d os = [].
+Proof. unfold nocb, c27. intros ->. reflexivity. Qed.
+
+Lemma c27_dispatch cfg s tit tid topic pub o1 o2 : nocb o1 -> nocb o2 ->
+  topic_for_publish cfg s tit tid = Some topic -> c27 cfg s (Some (tit, tid)) (o1 ++ dispatch s topic pub ++ o2) = [].
+Proof.
+  unfold nocb, c27. intros H1 H2 Ht. rewrite !c_cbs_app, H1, H2, app_nil_r. cbn [app].
+  unfold dispatch. destruct pub; try reflexivity.
+  destruct (handle_set (cl_handlers s) topic) as [|sub rest] eqn:Eh; [reflexivity|].
+  cbn [c_cbs mbind list_bind app]. rewrite Ht, beq_refl. cbn [app].
+  assert (Hin : In sub (handle_set (cl_handlers s) topic)) by (rewrite Eh; left; reflexivity).
+  apply handle_set_sound in Hin. destruct Hin as (k & route & Hin & Hm).
+  match goal with |- (if ?e then _ else _) = _ => assert (He : e = true) end.
+  { apply existsb_exists. exists (k, (route, sub)). split; [exact Hin|]. cbn [fst snd]. rewrite N.eqb_refl, Hm. reflexivity. }
+  rewrite He. reflexivity.
+Qed.
+
+Ltac ncb_walk :=
+  repeat first
+    [ progress cbn [snd fst loop_err]
+    | apply nocb_nil | assumption | apply nocb_complete | apply nocb_ret | apply nocb_app
+    | match goal with
+      | |- context [c_send ?X ?p] => let H := fresh "H" in pose proof (nocb_send X p) as H; destruct (c_send X p) as [? [|]]; cbn [fst] in H
+      end
+    | match goal with |- nocb (snd (match ?x with _ => _ end)) => destruct x eqn:? end
+    | match goal with |- nocb (snd (if ?x then _ else _)) => destruct x eqn:? end
+    | match goal with |- nocb (snd (let (_, _) := ?x in _)) => destruct x eqn:? end ].
+
+Lemma handle_packet_c27 cfg s p : c27 cfg s (deliv s p) (snd (handle_packet cfg s p)) = [].
+Proof.
+  destruct p; try solve [apply c27_nocb; unfold handle_packet, c_new_obj; ncb_walk].
+  - (* Publish *)
+    unfold handle_packet, deliv, c_new_obj. destruct (qos =? 0) eqn:E0.
+    { cbn [orb]. destruct (topic_for_publish cfg s tit tid) as [topic|] eqn:Et; cbn [snd loop_err]; [|apply c27_nocb, nocb_nil].
+      rewrite <- (app_nil_r (dispatch _ _ _)). apply (c27_dispatch cfg s tit tid topic _ [] []); [apply nocb_nil|apply nocb_nil|exact Et]. }
+    destruct (qos =? 1) eqn:E1.
+    { cbn [orb].
+      match goal with |- context [c_send ?X ?p] => pose proof (nocb_send X p) as H; destruct (c_send X p) as [o [|]]; cbn [fst] in H end;
+        cbn [snd loop_err]; [|apply c27_nocb, H].
+      destruct (topic_for_publish cfg s tit tid) as [topic|] eqn:Et; cbn [snd loop_err]; [|apply c27_nocb, H].
+      rewrite <- (app_nil_r (dispatch _ _ _)). apply (c27_dispatch cfg s tit tid topic _ o []); [exact H|apply nocb_nil|exact Et]. }
+    apply c27_nocb. ncb_walk.
+  - (* Pubrel *)
+    unfold handle_packet, deliv, c_get_id.
+    destruct (cl_by_id s !! mid) as [g|]; [|apply c27_nocb; ncb_walk].
+    destruct (cl_objs s !! g) as [[call att|call kind key st data n sub|call st n ms|mid' pub]|]; try solve [apply c27_nocb; ncb_walk].
+    destruct pub; try solve [apply c27_nocb; ncb_walk].
+    destruct (topic_for_publish cfg s tit tid) as [topic|] eqn:Et; [|apply c27_nocb; ncb_walk].
+    cbv zeta.
+    match goal with |- context [c_send ?X ?p] => pose proof (nocb_send X p) as H; destruct (c_send X p) as [o [|]]; cbn [fst] in H end;
+      cbn [snd]; apply (c27_dispatch cfg s tit tid topic _ [] o); first [apply nocb_nil|assumption].
+Qed.
+
+Lemma nocb_do_call cfg s call a : nocb (snd (do_call cfg s call a)).
+Proof.
+  unfold do_call, call_simple, do_publish, start_retry, c_new_obj, c_next_mid.
+  destruct a; cbv zeta; try apply nocb_connect_attempt; ncb_walk.
+Qed.
+
+Lemma nocb_fire cfg s k : nocb (snd (c_fire cfg s k)).
+Proof. unfold c_fire. destruct k; cbv zeta; ncb_walk. Qed.
+
+Lemma nocb_run_timers cfg t fuel : forall s, nocb (snd (c_run_timers fuel cfg s t)).
+Proof.
+  induction fuel as [|fuel IH]; intros s; cbn [c_run_timers]; [apply nocb_nil|]. cbv zeta.
+  destruct (c_min_timer (cl_timers s)) as [tm|].
+  - match goal with |- context [if ?c then _ else _] => destruct c end.
+    + match goal with |- context [c_fire cfg ?X ?k] => pose proof (nocb_fire cfg X k) as H1; destruct (c_fire cfg X k) as [s1 o1] end.
+      specialize (IH s1). destruct (c_run_timers fuel cfg s1 t) as [s2 o2]. cbn [snd] in *. apply nocb_app; assumption.
+    + destruct (if cl_exited s then None else cl_cancelled s) as [te|]; [|apply nocb_nil].
+      destruct (te <=? t); [|apply nocb_nil].
+      pose proof (nocb_exit s te) as H1. destruct (c_exit s te) as [s1 o1].
+      specialize (IH s1). destruct (c_run_timers fuel cfg s1 t) as [s2 o2]. cbn [snd] in *. apply nocb_app; assumption.
+  - destruct (if cl_exited s then None else cl_cancelled s) as [te|]; [|apply nocb_nil].
+    destruct (te <=? t); [apply nocb_exit|apply nocb_nil].
+Qed.
+
+Lemma chk_C27_c27 cfg s ev os : chk_C27 cfg s ev os = c27 cfg s (delivered cfg s ev) os.
+Proof. reflexivity. Qed.
+
+(* no hypothesis is needed *)
+Theorem chk_C27_sound cfg s ev : chk_C27 cfg s ev (snd (cl_step cfg s ev)) = [].
+Proof.
+  rewrite chk_C27_c27. unfold cl_step. destruct ev as [id a|dg|d].
+  - apply c27_nocb. destruct (cl_exited s); [apply nocb_nil|]. destruct (cl_cancelled s); [apply nocb_nil|].
+    pose proof (nocb_do_call cfg s id a) as H1. destruct (do_call cfg s id a) as [s1 o1]. cbn [snd] in H1.
+    destruct (cl_cancelled s1) as [te|]; [|exact H1]. destruct (te <=? cl_now s1); [|exact H1].
+    pose proof (nocb_exit s1 te) as H2. destruct (c_exit s1 te) as [s2 o2]. cbn [snd] in *. apply nocb_app; assumption.
+  - destruct (cl_exited s); [apply c27_nocb, nocb_nil|]. destruct (cl_cancelled s); [apply c27_nocb, nocb_nil|]. cbv zeta.
+    unfold delivered, ev_pkt.
+    destruct (read_dgram dg) as [p|e|ps].
+    + pose proof (handle_packet_c27 cfg (s <| cl_last_read := cl_now s |>) p) as H1.
+      change (c27 cfg (s <| cl_last_read := cl_now s |>) (deliv (s <| cl_last_read := cl_now s |>) p)) with (c27 cfg s (deliv s p)) in H1.
+      destruct (handle_packet cfg (s <| cl_last_read := cl_now s |>) p) as [s1 o1]. cbn [snd] in H1.
+      fold (deliv s p).
+      destruct (cl_cancelled s1) as [te|]; [|exact H1]. destruct (te <=? cl_now s1); [|exact H1].
+      pose proof (nocb_exit s1 te) as H2. destruct (c_exit s1 te) as [s2 o2]. cbn [snd] in *.
+      unfold c27 in *. rewrite c_cbs_app, H2, app_nil_r. exact H1.
+    + apply c27_nocb. match goal with |- context [c_exit ?X ?t] => pose proof (nocb_exit X t) as H2; destruct (c_exit X t) as [s2 o2] end. exact H2.
+    + apply c27_nocb. match goal with |- context [c_exit ?X ?t] => pose proof (nocb_exit X t) as H2; destruct (c_exit X t) as [s2 o2] end. exact H2.
+  - apply c27_nocb.
+    pose proof (nocb_run_timers cfg (cl_now s + d) (c_advance_fuel cfg s d) s) as H1.
+    destruct (c_run_timers (c_advance_fuel cfg s d) cfg s (cl_now s + d)) as [s1 o1]. exact H1.
+Qed.
+
+(* ------------------------------------------------------------------ C17 *)
+
+Definition c17_1 (cfg : cl_cfg) (s : cl_state) (mid : N) (ps : list packet) : list N :=
+  match List.filter is_c_pubcomp ps with
+  | [Pubcomp m] => if m =? mid then [] else [3]
+  | [] =>
+    match c_get_id s mid with
+    | Some (_, CxBrokerPub2 _ (Publish _ _ _ tit tid _ _)) =>
+      match topic_for_publish cfg s tit tid with None => [] | Some _ => [3] end
+    | Some _ => []
+    | None => [3]
+    end
+  | _ => [3]
+  end.
+
+Definition c17_3 (s : cl_state) (ev : cl_event) (ir : N * cres) : list N :=
+  match snd ir with
+  | ROk =>
+    let mine t := match t with CxRetry call kind _ _ _ _ _ => (call =? fst ir) && ((kind =? 3) || (kind =? 4)) | _ => false end in
+    match List.filter (fun gt => mine (snd gt)) (map_to_list (cl_objs s)) with
+    | [(_, CxRetry _ 3 key st _ _ _)] =>
+      match ev_pkt ev with
+      | Some (Puback _ mid rc) => if (mid =? key) && (rc =? RC_ACCEPTED) && ct_state_eqb st CtAwaitPuback then [] else [1]
+      | _ => [1]
+      end
+    | [(_, CxRetry _ 4 key st _ _ _)] =>
+      match ev_pkt ev with
+      | Some (Pubcomp mid) => if (mid =? key) && ct_state_eqb st CtAwaitPubcomp then [] else [1]
+      | _ => [1]
+      end
+    | _ => []
+    end
+  | _ => []
+  end.
+
+Lemma chk_C17_parts cfg s ev os :
+  chk_C17 cfg s ev os =
+  if negb (c_live s) then [] else
+  (match ev_pkt ev with Some (Pubrel mid) => c17_1 cfg s mid (c_pkts os) | _ => [] end) ++
+  (match ev with CAdv _ => c_pkts os ≫= dupf | _ => [] end) ++
+  (c_rets os ≫= c17_3 s ev).
+Proof. reflexivity. Qed.
+
+(* ---- clause 2: retransmissions carry DUP *)
+Lemma c17_clause2 cfg s d : wf_cl_cfg cfg -> cl_reach cfg s -> c_pkts (snd (cl_step cfg s (CAdv d))) ≫= dupf = [].
+Proof.
+  intros Hcfg Hr. apply (Outs_dup cfg _ Hcfg).
+  apply (cl_step_outs cfg dupQ false s (CAdv d) Hcfg); [apply cl_reach_invA with cfg, Hr| |].
+  - intros p. destruct p; cbn [simplep dupQ]; intros H; try contradiction; exact I.
+  - intros call kind key st data n sub (_ & Hk & _). unfold retry_data.
+    destruct data; cbn [kd_ok] in Hk; try (destruct ((kind =? 1) || (kind =? 3) || (kind =? 4)); exact I);
+      (destruct Hk as [->|[->| ->]]; reflexivity).
+Qed.
+
+(* ---- clause 1: PUBREL is answered by PUBCOMP *)
+Lemma c_sns_exit s t : c_sns (snd (c_exit s t)) = [].
+Proof.
+  unfold c_exit. cbv zeta. cbn [snd].
+  match goal with |- c_sns (_ :: ?l0 ≫= ?f) = _ => generalize l0 end. intros l.
+  change (c_sns (l ≫= (fun c => if c mod 2 =? 0 then [CoRet t (c / 2) RCancelled]
+            else [CoRet t (c / 2) (if cl_group_err s then RCancelled else ROk)])) = []).
+  induction l as [|c l IH]; [reflexivity|]. cbn [mbind list_bind]. rewrite c_sns_app. cbn [mbind list_bind] in IH. rewrite IH.
+  destruct (c mod 2 =? 0); reflexivity.
+Qed.
+Lemma c_pkts_exit s t : c_pkts (snd (c_exit s t)) = [].
+Proof. unfold c_pkts. rewrite c_sns_exit. reflexivity. Qed.
+
+Lemma c_pkts_dispatch s topic p : c_pkts (dispatch s topic p) = [].
+Proof. unfold dispatch. destruct p; try reflexivity. destruct (handle_set _ _); reflexivity. Qed.
+
+Lemma c_pkts_pubcomp t mid : mid < 65536 -> c_pkts [CoSn t (pack (Pubcomp mid))] = [Pubcomp mid].
+Proof.
+  intros H. rewrite c_pkts_sn. rewrite (dec_list_csend (Pubcomp mid) I); [|vm_compute; discriminate].
+  cbn [namedb norm]. rewrite u16_small by exact H. reflexivity.
+Qed.
+
+Lemma handle_pubrel_c17 b cfg s mid : InvA b s -> cl_conn_closed s = false -> mid < 65536 ->
+  c17_1 cfg s mid (c_pkts (snd (handle_packet cfg s (Pubrel mid)))) = [].
+Proof.
+  intros Hi Hcc Hm.
+  assert (Hsend : c_send s (Pubcomp mid) = ([CoSn (cl_now s) (pack (Pubcomp mid))], true)).
+  { apply c_send_ok; [exact Hcc|]. vm_compute. discriminate. }
+  unfold handle_packet, c17_1, c_get_id.
+  destruct (cl_by_id s !! mid) as [g|] eqn:Eg.
+  - destruct (ia_id b s Hi mid g Eg) as (t & Ht & _). rewrite Ht.
+    destruct t as [call att|call kind key st data n sub|call st n ms|mid' pub]; try reflexivity.
+    destruct pub; try reflexivity.
+    destruct (topic_for_publish cfg s tit tid) as [topic|] eqn:Et; [|reflexivity].
+    cbv zeta. rewrite Hsend. cbn [snd]. rewrite c_pkts_app, c_pkts_dispatch, c_pkts_pubcomp by exact Hm.
+    cbn [app List.filter is_c_pubcomp]. rewrite N.eqb_refl. reflexivity.
+  - rewrite Hsend. cbn [snd]. rewrite c_pkts_pubcomp by exact Hm. cbn [List.filter is_c_pubcomp]. rewrite N.eqb_refl. reflexivity.
+Qed.
+
+Lemma c17_clause1 cfg s dg mid : cl_reach cfg s -> wf_cl_event (CGw dg) -> c_live s = true ->
+  read_dgram dg = Ok (Pubrel mid) -> c17_1 cfg s mid (c_pkts (snd (cl_step cfg s (CGw dg)))) = [].
+Proof.
+  intros Hr [Hwf _] Hl Hd. pose proof (read_dgram_fact dg _ Hwf Hd) as Hm. cbn [mid_fact] in Hm.
+  unfold c_live in Hl. apply andb_true_iff in Hl. destruct Hl as [Hl Hcc]. apply andb_true_iff in Hl. destruct Hl as [Hex Hca].
+  apply negb_true_iff in Hex. apply negb_true_iff in Hcc.
+  unfold cl_step. rewrite Hex. destruct (cl_cancelled s); [discriminate|]. cbv zeta. rewrite Hd.
+  pose proof (handle_pubrel_c17 false cfg (s <| cl_last_read := cl_now s |>) mid) as H1.
+  specialize (H1 ltac:(invA_raw; apply cl_reach_invA with cfg, Hr) Hcc Hm).
+  change (c17_1 cfg (s <| cl_last_read := cl_now s |>) mid) with (c17_1 cfg s mid) in H1.
+  destruct (handle_packet cfg (s <| cl_last_read := cl_now s |>) (Pubrel mid)) as [s1 o1]. cbn [snd] in H1.
+  destruct (cl_cancelled s1) as [te|]; [|exact H1]. destruct (te <=? cl_now s1); [|exact H1].
+  pose proof (c_pkts_exit s1 te) as H2. destruct (c_exit s1 te) as [s2 o2]. cbn [snd] in *.
+  rewrite c_pkts_app, H2, app_nil_r. exact H1.
+Qed.
+
+(* ---- clause 3: Publish (QoS 1/2) returns nil only on PUBACK / PUBCOMP *)
+
+(* pending calls (live transactions, calls blocked in group.Wait()) have distinct ids *)
+Definition calls_uniq (s : cl_state) : Prop := K (fun _ => True) s.
+
+Definition has_call (id : N) (t : ctxn) : bool := match call_of t with Some c => c =? id | None => false end.
+(* the id of a new API call is not the id of a pending call *)
+Definition cl_fresh (s : cl_state) (ev : cl_event) : bool :=
+  match ev with
+  | CCall id _ =>
+    forallb (fun gt => negb (has_call id (snd gt))) (map_to_list (cl_objs s)) &&
+    forallb (fun c => negb (c / 2 =? id)) (cl_waiting_group s)
+  | _ => true
+  end.
+
+Lemma cl_fresh_spec s id a : cl_fresh s (CCall id a) = true -> fresh s id.
+Proof.
+  cbn [cl_fresh]. intros H. apply andb_true_iff in H. destruct H as [H1 H2].
+  rewrite forallb_forall in H1, H2. split.
+  - intros g t Hg Hc. specialize (H1 (g, t)). cbn [snd] in H1. unfold has_call in H1. rewrite Hc, N.eqb_refl in H1.
+    specialize (H1 ltac:(apply elem_of_list_In, elem_of_map_to_list, Hg)). discriminate.
+  - intros c' Hin E. specialize (H2 c' Hin). apply N.eqb_eq in E. rewrite E in H2. discriminate.
+Qed.
+
+Lemma calls_uniq_init : calls_uniq cl_init.
+Proof. apply K_init. Qed.
+
+Lemma calls_uniq_step cfg s ev : calls_uniq s -> cl_fresh s ev = true -> calls_uniq (fst (cl_step cfg s ev)).
+Proof.
+  intros Hk Hf. apply (cl_step_K (fun _ => True) cfg s ev Hk); [|auto].
+  intros id a ->. split; [eapply cl_fresh_spec, Hf|exact I].
+Qed.
+
+Definition mineb (c : N) (t : ctxn) : bool :=
+  match t with CxRetry call kind _ _ _ _ _ => (call =? c) && ((kind =? 3) || (kind =? 4)) | _ => false end.
+Definition mine_list (s : cl_state) (c : N) : list (N * ctxn) :=
+  List.filter (fun gt => mineb c (snd gt)) (map_to_list (cl_objs s)).
+
+Lemma c17_3_ok s ev c :
+  c17_3 s ev (c, ROk) =
+  match mine_list s c with
+  | [(_, CxRetry _ 3 key st _ _ _)] =>
+    match ev_pkt ev with
+    | Some (Puback _ mid rc) => if (mid =? key) && (rc =? RC_ACCEPTED) && ct_state_eqb st CtAwaitPuback then [] else [1]
+    | _ => [1]
+    end
+  | [(_, CxRetry _ 4 key st _ _ _)] =>
+    match ev_pkt ev with
+    | Some (Pubcomp mid) => if (mid =? key) && ct_state_eqb st CtAwaitPubcomp then [] else [1]
+    | _ => [1]
+    end
+  | _ => []
+  end.
+Proof. reflexivity. Qed.
+
+Lemma c17_3_other s ev c r : r <> ROk -> c17_3 s ev (c, r) = [].
+Proof. destruct r; try reflexivity. intros H. contradiction. Qed.
+
+Lemma elem_of_lfilter {A} (f : A -> bool) l x : x ∈ List.filter f l <-> x ∈ l /\ f x = true.
+Proof. rewrite !elem_of_list_In. apply filter_In. Qed.
+
+Lemma NoDup_lfilter {A} (f : A -> bool) l : base.NoDup l -> base.NoDup (List.filter f l).
+Proof.
+  induction 1 as [|x l Hx _ IH]; cbn [List.filter]; [constructor|].
+  destruct (f x); [|exact IH]. constructor; [|exact IH]. intros H. apply elem_of_lfilter in H. apply Hx, H.
+Qed.
+
+Lemma all_eq_NoDup {A} (x : A) l : base.NoDup l -> (forall y, y ∈ l -> y = x) -> l = [] \/ l = [x].
+Proof.
+  intros Hn Hall. destruct l as [|a [|b l]]; [left; reflexivity|right|exfalso].
+  - rewrite (Hall a) by (left). reflexivity.
+  - assert (a = x) by (apply Hall; left). assert (b = x) by (apply Hall; right; left). subst.
+    inversion Hn as [|? ? Hnin _]; subst. apply Hnin. left.
+Qed.
+
+Lemma mineb_call c t : mineb c t = true -> call_of t = Some c.
+Proof.
+  destruct t; cbn [mineb call_of]; try discriminate. intros H. apply andb_true_iff in H. destruct H as [H _].
+  apply N.eqb_eq in H. subst. reflexivity.
+Qed.
+
+Lemma mine_list_nil s c : (forall g t, cl_objs s !! g = Some t -> call_of t <> Some c) -> mine_list s c = [].
+Proof.
+  intros H. unfold mine_list. destruct (List.filter _ _) as [|[g t] l] eqn:E; [reflexivity|exfalso].
+  assert (Hin : (g, t) ∈ List.filter (fun gt => mineb c (snd gt)) (map_to_list (cl_objs s))) by (rewrite E; left).
+  apply elem_of_lfilter in Hin. destruct Hin as [Hin Hm]. apply elem_of_map_to_list in Hin. cbn [snd] in Hm.
+  apply (H g t Hin), mineb_call, Hm.
+Qed.
+
+Lemma mine_list_cases s g t c : calls_uniq s -> cl_objs s !! g = Some t -> call_of t = Some c ->
+  mine_list s c = [] \/ mine_list s c = [(g, t)].
+Proof.
+  intros Hk Hg Hc. unfold mine_list. apply all_eq_NoDup; [apply NoDup_lfilter, NoDup_map_to_list|].
+  intros [g' t'] Hin. apply elem_of_lfilter in Hin. destruct Hin as [Hin Hm]. apply elem_of_map_to_list in Hin. cbn [snd] in Hm.
+  apply mineb_call in Hm.
+  assert (g' = g) by (eapply (k_uo _ s Hk); eassumption). subst g'. rewrite Hg in Hin. injection Hin as <-. reflexivity.
+Qed.
+
+Lemma c17_3_nil s ev c : mine_list s c = [] -> c17_3 s ev (c, ROk) = [].
+Proof. intros H. rewrite c17_3_ok, H. reflexivity. Qed.
+
+Lemma c17_clause3 cfg s ev : cl_reach cfg s -> calls_uniq s -> cl_fresh s ev = true ->
+  c_rets (snd (cl_step cfg s ev)) ≫= c17_3 s ev = [].
+Proof.
+  intros Hr Hk Hf. pose proof (cl_reach_invA false cfg s Hr) as Hi.
+  set (G := fun c => c17_3 s ev (c, ROk) = []).
+  assert (HkG : K G s).
+  { destruct Hk as [H1 H2 _ _]. split; [exact H1|exact H2| |].
+    - intros g t c Hg Hd. unfold G. destruct t as [| call kind key st data n sub| |]; cbn [dcall] in Hd; try discriminate.
+      destruct ((kind =? 6) || (kind =? 7)) eqn:E67; [|discriminate]. injection Hd as ->.
+      destruct (mine_list_cases s g _ c ltac:(split; auto) Hg eq_refl) as [E|E]; [apply c17_3_nil, E|].
+      rewrite c17_3_ok, E. apply orb_true_iff in E67.
+      destruct E67 as [E67|E67]; apply N.eqb_eq in E67; subst kind; reflexivity.
+    - intros c' Hin _. apply c17_3_nil, mine_list_nil. intros g t Hg. eapply H2; eassumption. }
+  assert (Hrets : RetsG G (snd (cl_step cfg s ev))).
+  { apply (cl_step_K G cfg s ev HkG).
+    - intros id a ->. apply cl_fresh_spec in Hf. split; [exact Hf|]. apply c17_3_nil, mine_list_nil, Hf.
+    - intros p Hp g t c Hg Hc Hs. unfold G.
+      destruct (mine_list_cases s g t c Hk Hg Hc) as [E|E]; [apply c17_3_nil, E|].
+      rewrite c17_3_ok, E, Hp.
+      destruct t as [| call kind key st data n sub| |]; try reflexivity. cbn [site_ok] in Hs.
+      destruct (kind =? 3) eqn:E3.
+      { apply N.eqb_eq in E3. subst kind. destruct Hs as (x & mid & -> & Hmid & ->).
+        destruct (ia_id false s Hi mid g Hmid) as (t' & Ht' & Hk'). rewrite Hg in Ht'. injection Ht' as <-.
+        cbn [id_key N.eqb Pos.eqb orb] in Hk'. injection Hk' as ->. rewrite !N.eqb_refl. reflexivity. }
+      destruct (kind =? 4) eqn:E4.
+      { apply N.eqb_eq in E4. subst kind. destruct Hs as (mid & -> & Hmid & ->).
+        destruct (ia_id false s Hi mid g Hmid) as (t' & Ht' & Hk'). rewrite Hg in Ht'. injection Ht' as <-.
+        cbn [id_key N.eqb Pos.eqb orb] in Hk'. injection Hk' as ->. rewrite !N.eqb_refl. reflexivity. }
+      destruct kind as [|q]; [reflexivity|]. destruct q as [q|q|]; try reflexivity;
+        (destruct q as [q|q|]; try reflexivity; try discriminate E3);
+        destruct q as [q|q|]; try reflexivity; discriminate E4. }
+  unfold RetsG in Hrets. revert Hrets. generalize (c_rets (snd (cl_step cfg s ev))). intros l Hl.
+  induction l as [|[c r] l IH]; [reflexivity|]. cbn [mbind list_bind]. rewrite IH by (intros c' H'; apply Hl; right; exact H').
+  rewrite app_nil_r. destruct r; try reflexivity. apply (Hl c). left. reflexivity.
+Qed.
+
+(* without a condition on call ids, clauses 1 and 2 of C17 hold; only clause 3 can fail *)
+Lemma chk_C17_clauses12 cfg s ev : wf_cl_cfg cfg -> cl_reach cfg s -> wf_cl_event ev ->
+  chk_C17 cfg s ev (snd (cl_step cfg s ev)) =
+  if negb (c_live s) then [] else c_rets (snd (cl_step cfg s ev)) ≫= c17_3 s ev.
+Proof.
+  intros Hcfg Hr Hev. rewrite chk_C17_parts. destruct (negb (c_live s)) eqn:El; [reflexivity|].
+  apply negb_false_iff in El.
+  assert (H1 : match ev_pkt ev with Some (Pubrel mid) => c17_1 cfg s mid (c_pkts (snd (cl_step cfg s ev))) | _ => [] end = []).
+  { destruct ev as [id a|dg|d]; try reflexivity. cbn [ev_pkt].
+    destruct (read_dgram dg) as [p|e|ps] eqn:Ed; try reflexivity. destruct p; try reflexivity.
+    apply c17_clause1; assumption. }
+  assert (H2 : match ev with CAdv _ => c_pkts (snd (cl_step cfg s ev)) ≫= dupf | _ => [] end = []).
+  { destruct ev as [id a|dg|d]; try reflexivity. apply c17_clause2; assumption. }
+  rewrite H1, H2. reflexivity.
+Qed.
+
+(* chk_C17_sound as required,
+     wf_cl_cfg cfg -> cl_reach cfg s -> wf_cl_event ev -> chk_C17 cfg s ev (snd (cl_step cfg s ev)) = [],
+   is FALSE when the harness re-uses the id of a call that has not returned yet: the checker
+   attributes a nil return to "the" Publish transaction of that call id.  Counterexample (cfg
+   without user): CCall 0 AConnect; CONNACK; CCall 1 (ARegister "a/b"); REGACK 5 1 0;
+   CCall 7 (APublish "a/b" 1 false [1]); then CCall 7 (APublish "a/b" 0 false [1]) gives [1].
+   Added hypotheses: calls_uniq s (pending calls have distinct ids; an invariant of histories
+   whose calls satisfy cl_fresh: calls_uniq_init, calls_uniq_step) and the executable side
+   condition cl_fresh s ev = true (a new call's id is not the id of a pending call). *)
+Theorem chk_C17_partial cfg s ev : wf_cl_cfg cfg -> cl_reach cfg s -> wf_cl_event ev ->
+  calls_uniq s -> cl_fresh s ev = true -> chk_C17 cfg s ev (snd (cl_step cfg s ev)) = [].
+Proof.
+  intros Hcfg Hr Hev Hk Hf. rewrite (chk_C17_clauses12 cfg s ev Hcfg Hr Hev).
+  destruct (negb (c_live s)); [reflexivity|]. apply c17_clause3; assumption.
+Qed.
+
+(* ------------------------------------------------------------------ histories *)
+
+(* P holds of (state before, event) at every step of the run of evs from s *)
+Fixpoint cl_run_all (cfg : cl_cfg) (P : cl_state -> cl_event -> Prop) (s : cl_state) (evs : list cl_event) : Prop :=
+  match evs with
+  | [] => True
+  | ev :: evs' => P s ev /\ cl_run_all cfg P (fst (cl_step cfg s ev)) evs'
+  end.
+
+Lemma cl_run_all_forall cfg (P : cl_state -> cl_event -> Prop) : (forall s ev, P s ev) -> forall evs s, cl_run_all cfg P s evs.
+Proof. intros HP. induction evs as [|ev evs IH]; intros s; cbn [cl_run_all]; [exact I|split; [apply HP|apply IH]]. Qed.
+
+Lemma cl_run_all_lift cfg (H Q : cl_state -> cl_event -> Prop) :
+  (forall s ev, cl_reach cfg s -> wf_cl_event ev -> H s ev -> Q s ev) ->
+  forall evs s, cl_reach cfg s -> Forall wf_cl_event evs -> cl_run_all cfg H s evs -> cl_run_all cfg Q s evs.
+Proof.
+  intros Hstep. induction evs as [|ev evs IH]; intros s Hr Hwf HH; cbn [cl_run_all] in *; [exact I|].
+  inversion Hwf as [|? ? Hev Hevs]; subst. destruct HH as [H1 H2]. split.
+  - apply Hstep; assumption.
+  - apply IH; [apply cl_reach_step; assumption|exact Hevs|exact H2].
+Qed.
+
+Lemma cl_run_all_lift_inv cfg (Inv : cl_state -> Prop) (H Q : cl_state -> cl_event -> Prop) :
+  (forall s ev, cl_reach cfg s -> wf_cl_event ev -> Inv s -> H s ev -> Inv (fst (cl_step cfg s ev))) ->
+  (forall s ev, cl_reach cfg s -> wf_cl_event ev -> Inv s -> H s ev -> Q s ev) ->
+  forall evs s, cl_reach cfg s -> Inv s -> Forall wf_cl_event evs -> cl_run_all cfg H s evs -> cl_run_all cfg Q s evs.
+Proof.
+  intros Hpres Hstep. induction evs as [|ev evs IH]; intros s Hr Hi Hwf HH; cbn [cl_run_all] in *; [exact I|].
+  inversion Hwf as [|? ? Hev Hevs]; subst. destruct HH as [H1 H2]. split.
+  - apply Hstep; assumption.
+  - apply IH; [apply cl_reach_step; assumption|apply Hpres; assumption|exact Hevs|exact H2].
+Qed.
+
+(* every step of every history from cl_init is accepted *)
+Theorem chk_C27_history cfg evs s : cl_run_all cfg (fun s ev => chk_C27 cfg s ev (snd (cl_step cfg s ev)) = []) s evs.
+Proof. apply cl_run_all_forall. intros s' ev. apply chk_C27_sound. Qed.
+
+Theorem chk_C31c_history cfg evs : wf_cl_cfg cfg -> Forall wf_cl_event evs ->
+  cl_run_all cfg (fun s ev => chk_C31c cfg (snd (cl_step cfg s ev)) = []) cl_init evs.
+Proof.
+  intros Hcfg Hwf.
+  apply (cl_run_all_lift cfg (fun _ _ => True)); [|apply cl_reach_init|exact Hwf|apply cl_run_all_forall; auto].
+  intros s ev Hr _ _. apply chk_C31c_sound; assumption.
+Qed.
+
+Theorem chk_C23c_history cfg evs : wf_cl_cfg cfg -> Forall wf_cl_event evs ->
+  cl_run_all cfg (fun s ev => chk_C23c (snd (cl_step cfg s ev)) = []) cl_init evs.
+Proof.
+  intros Hcfg Hwf.
+  apply (cl_run_all_lift cfg (fun _ _ => True)); [|apply cl_reach_init|exact Hwf|apply cl_run_all_forall; auto].
+  intros s ev Hr Hev _. apply chk_C23c_sound; assumption.
+Qed.
+
+(* ... of every history in which no call re-uses the id of a call that is still pending *)
+Theorem chk_C17_history cfg evs : wf_cl_cfg cfg -> Forall wf_cl_event evs ->
+  cl_run_all cfg (fun s ev => cl_fresh s ev = true) cl_init evs ->
+  cl_run_all cfg (fun s ev => chk_C17 cfg s ev (snd (cl_step cfg s ev)) = []) cl_init evs.
+Proof.
+  intros Hcfg Hwf Hf.
+  apply (cl_run_all_lift_inv cfg calls_uniq (fun s ev => cl_fresh s ev = true));
+    [| |apply cl_reach_init|apply calls_uniq_init|exact Hwf|exact Hf].
+  - intros s ev _ _ Hk He. apply calls_uniq_step; assumption.
+  - intros s ev Hr Hev Hk He. apply chk_C17_partial; assumption.
+Qed.
+
+Print Assumptions chk_C23c_sound.
+Print Assumptions chk_C27_sound.
+Print Assumptions chk_C17_partial.
+Print Assumptions chk_C31c_sound.
+Print Assumptions chk_C23c_history.
+Print Assumptions chk_C27_history.
+Print Assumptions chk_C17_history.
+Print Assumptions chk_C31c_history.
